@@ -343,3 +343,34 @@ Proof.
   intros steps s c0 H i Hi. pose proof (inv_run steps s) as Hinv. rewrite H in Hinv.
   destruct Hinv as [c [_ [_ Hin]]]. apply Hin in Hi. lia.
 Qed.
+
+(* ---------- assignment rounds: FIFO, none dropped, none duplicated ---------- *)
+
+Definition slot_list (st : astate) : list (list (N * N)) := match slot st with Some r => [r] | None => [] end.
+
+Lemma a_inv : forall steps, acked (a_run steps) = delivered (a_run steps) ++ slot_list (a_run steps).
+Proof.
+  intro steps. unfold a_run. induction steps as [|x steps IH] using rev_ind; [reflexivity|].
+  rewrite fold_left_app. cbn [fold_left]. set (st := fold_left a_step steps a_init) in *.
+  unfold slot_list in *. destruct x as [r|]; unfold a_step; destruct (slot st) as [r0|] eqn:E; cbn [slot acked delivered].
+  - rewrite E. exact IH.
+  - rewrite IH. rewrite app_nil_r. reflexivity.
+  - rewrite IH. rewrite app_nil_r. reflexivity.
+  - rewrite E. exact IH.
+Qed.
+
+(* Every acknowledged round reaches the reader: at any moment the acknowledged rounds are the delivered ones plus
+   at most the one in the slot, in order; once the loop has taken the slot they are equal, so every split of an
+   acknowledged round is given to the reader exactly as often as it was acknowledged. *)
+Theorem assignment_rounds_fifo : forall steps,
+  acked (a_run steps) = delivered (a_run steps) ++ slot_list (a_run steps) /\
+  (slot (a_run steps) = None -> concat (delivered (a_run steps)) = concat (acked (a_run steps))) /\
+  delivered (a_run (steps ++ [ATake])) = acked (a_run (steps ++ [ATake])).
+Proof.
+  intro steps. split; [apply a_inv|]. split.
+  - intro H. rewrite (a_inv steps). unfold slot_list. rewrite H, app_nil_r. reflexivity.
+  - pose proof (a_inv steps) as Hi. unfold a_run in *. rewrite fold_left_app. cbn [fold_left].
+    set (st := fold_left a_step steps a_init) in *. unfold a_step, slot_list in *. destruct (slot st) as [r|]; cbn [acked delivered].
+    + symmetry. exact Hi.
+    + rewrite Hi, app_nil_r. reflexivity.
+Qed.
